@@ -46,7 +46,7 @@ fn c04_nth_child_has_index_small_window() {
 
 /// ... and here offset and index are within W of 0, i32::MIN or i32::MAX (where `index - offset`
 /// leaves the i32 range) with a step within W of 0: this window contains the overflow that F2 fixed.
-// @verif props=C04,C15 fns=NthChild::has_index
+// @verif props=C04,C15 fns=NthChild::has_index quick=C04
 #[kani::proof]
 fn c04_nth_child_has_index_extreme_offsets() {
     let step: i32 = kani::any();
